@@ -38,6 +38,17 @@ def disable_even_root_of_even_power():
     return restore
 
 
+def even_root_rule_is_disabled():
+    """Is the F3 counterfactual effective right now?  (A refactor -- e.g. reducer lists cached per class --
+    can make patching the named method ineffective.)  Decided by behaviour, not by introspection."""
+    try:
+        V, P, R = lib.EXPR_CLASSES["Variable"], lib.EXPR_CLASSES["NthPower"], lib.EXPR_CLASSES["NthRoot"]
+        out = R(P(V("x"), 2), 2)._normalize()
+        return type(out).__name__ == "NthRoot"
+    except Exception:       # noqa: BLE001
+        return False
+
+
 MF_NAMES = ["add", "minus", "negation", "multiply", "divide", "reciprocal", "power", "nth_power",
             "nth_root", "exponential", "logarithm", "cosine", "sine"]
 
